@@ -65,6 +65,16 @@ SEEDS = {
  "C20-m4": ("RewardScaler.__call__ skips the update for single-value batches", "reward_scale norm/scale and a later batch with exactly one value"),
  "C14-m3": ("PointerNetworkPolicy.forward reshapes locs instead of transposing them", "batch size > 1"),
  "C14-m4": ("MTVRPEnv.get_action_mask uses row 0's open-route flag in the distance-limit test", "batch mixing open-route and closed-route instances with a distance limit"),
+ "C05-m3": ("MTVRPEnv.get_action_mask reduces the open-route flag over the whole batch (.all())", "open-route instance with a distance limit next to a closed-route batch-mate"),
+ "C05-m4": ("FJSPEnv.__init__ swaps the mask_no_ops / check_mask parameters (JSSPEnv forwards positionally)", "JSSPEnv(mask_no_ops=False) and an optimum that needs an idle machine"),
+ "C12-m3": ("unbatchify peels nested factors in the wrong order", "a tuple of at least two unequal factors"),
+ "C12-m4": ("PDPEnv.select_start_nodes lays the starts out start-major (repeat instead of repeat_interleave)", "gcd(batch size, number of starts) > 1"),
+ "C15-m3": ("unbatchify_and_gather indexes flat rows instance-major", "sampling evaluation with select_best and batch > 1"),
+ "C15-m4": ("POMO.shared_step augments the raw batch before env.reset (the depot key is not augmented)", "validation / test, num_augment > 1, environment with a separate depot key"),
+ "C16-m3": ("RolloutBaseline._update_policy takes a shallow copy of the actor", "an optimiser step between the baseline update and its next evaluation"),
+ "C16-m4": ("solution_symmetricity_loss defaults to dim=1", "SymNCO with num_starts > 1 and num_augment > 1"),
+ "C17-m3": ("RL4COLitModule._dataloader_single drops the last partial batch when shuffling", "shuffle_train_dataloader=True and a batch size that does not divide the set"),
+ "C17-m4": ("TensorDictDatasetFastGeneration serves batches from a column cache that add_key does not refresh", "the same dataset object keyed again with new values"),
 }
 for sid in sorted(os.listdir(os.path.join(ROOT, "seeded"))):
     d = os.path.join(ROOT, "seeded", sid)
